@@ -86,10 +86,22 @@ def determinism(args):
 def regressions(args):
     exe = builder.build("asan")
     rc = 0
+    # plans of recorded (unrepaired) findings must still show exactly that finding; all others are repaired defects and must hold
+    open_findings = {}
+    for line in open(os.path.join(VERIF, "known_findings.txt")):
+        if line.startswith("finding:"):
+            kv = dict(w.split("=", 1) for w in line[8:].split() if "=" in w)
+            if "plan" in kv:
+                open_findings[kv["plan"]] = kv.get("sig", "")
     for path in sorted(glob.glob(os.path.join(VERIF, "regressions", "*.plan"))):
         r = sh([exe, "replay", path])
-        ok = r.returncode == 0
-        print("%-60s %s" % (os.path.basename(path), "holds" if ok else "FAILS rc=%d %s" % (r.returncode, r.stdout.strip()[:200])))
+        name = os.path.basename(path)
+        if name in open_findings:
+            ok = r.returncode == 1 and ("sig=%s " % open_findings[name]) in r.stdout
+            print("%-60s %s" % (name, "still shows the recorded finding" if ok else "DOES NOT show the recorded finding any more: rc=%d %s" % (r.returncode, r.stdout.strip()[:200])))
+        else:
+            ok = r.returncode == 0
+            print("%-60s %s" % (name, "holds" if ok else "FAILS rc=%d %s" % (r.returncode, r.stdout.strip()[:200])))
         if not ok:
             rc = 1
     return rc
